@@ -192,6 +192,13 @@ func (ind *fileBuilder) printMethod(method protoreflect.MethodDescriptor) error 
 		return err
 	}
 
+	if method.IsStreamingClient() {
+		inputType = "stream " + inputType
+	}
+	if method.IsStreamingServer() {
+		outputType = "stream " + outputType
+	}
+
 	extensions, err := ind.out.extensions.OptionsFor(method)
 	if err != nil {
 		return err
